@@ -8,6 +8,7 @@ import (
 	"fmt"
 	"math"
 	"reflect"
+	"strings"
 	"sync"
 	"testing"
 
@@ -20,7 +21,7 @@ import (
 
 // GTIDCase covers the single-GTID and set round trips and the event decoders.
 type GTIDCase struct {
-	Kind string // "gtid56", "maria", "set56", "mariaset", "event56", "prev56", "mariaevent"
+	Kind string // "gtid56", "maria", "set56", "typed56", "mariaset", "event56", "prev56", "mariaevent"
 	SID  [16]byte
 	Seq  uint64
 	Dom  uint32
@@ -111,6 +112,59 @@ func checkGTIDCase(c *GTIDCase) error {
 			}
 			if s.Flavor() != "MySQL56" {
 				return fmt.Errorf("set flavor %q", s.Flavor())
+			}
+			return nil
+		})
+	case "typed56":
+		// the text form as a person (or another tool) writes it: the intervals of a server in any order,
+		// overlapping, nested or touching - all of which MySQL accepts.  Whatever representation the parser
+		// chooses, the parsed set must hold exactly the union, before and after one more print / parse.
+		return guard(func() error {
+			m := gmodel{}
+			var parts []string
+			for i := 0; i < len(c.Pool); i++ {
+				ivs := c.Start[i]
+				if len(ivs) == 0 {
+					continue
+				}
+				m[c.Pool[i]] = canon(ivs)
+				t := sidText(c.Pool[i])
+				for _, iv := range ivs {
+					if iv[0] == iv[1] {
+						t += fmt.Sprintf(":%d", iv[0])
+					} else {
+						t += fmt.Sprintf(":%d-%d", iv[0], iv[1])
+					}
+				}
+				parts = append(parts, t)
+			}
+			if len(parts) == 0 {
+				return nil
+			}
+			text := strings.Join(parts, ",")
+			p, err := replication.VerifParseGTIDSet("MySQL56", text)
+			if err != nil {
+				return fmt.Errorf("parsing %q failed: %v", text, err)
+			}
+			again, err := replication.VerifParseGTIDSet("MySQL56", p.String())
+			if err != nil {
+				return fmt.Errorf("parsing %q, the printed form of %q, failed: %v", p.String(), text, err)
+			}
+			for sid, ivs := range m {
+				for _, iv := range ivs {
+					for _, n := range []int64{iv[0] - 1, iv[0], (iv[0] + iv[1]) / 2, iv[1], iv[1] + 1} {
+						if n < 1 || (n == iv[1]+1 && iv[1] == math.MaxInt64) {
+							continue
+						}
+						g := replication.Mysql56GTID{Server: replication.SID(sid), Sequence: n}
+						if got := p.ContainsGTID(g); got != m.has(sid, n) {
+							return fmt.Errorf("the set parsed from %q (it prints %q): ContainsGTID(%d) = %v, the union says %v", text, p.String(), n, got, m.has(sid, n))
+						}
+						if got := again.ContainsGTID(g); got != m.has(sid, n) {
+							return fmt.Errorf("%q parsed, printed (%q) and parsed again: ContainsGTID(%d) = %v, the union says %v", text, p.String(), n, got, m.has(sid, n))
+						}
+					}
+				}
 			}
 			return nil
 		})
@@ -438,7 +492,7 @@ func TestC19(t *testing.T) {
 			}
 			return
 		}
-		kind := rapid.SampledFrom([]string{"gtid56", "maria", "set56", "mariaset", "event56", "prev56", "mariaevent", "mariaseq", "mariaseq"}).Draw(rt, "kind")
+		kind := rapid.SampledFrom([]string{"gtid56", "maria", "set56", "typed56", "mariaset", "event56", "prev56", "mariaevent", "mariaseq", "mariaseq"}).Draw(rt, "kind")
 		if kind == "mariaseq" {
 			c := &MariaSeqCase{}
 			doms := []uint32{0, 1, 7, 1<<32 - 1}
@@ -472,7 +526,7 @@ func TestC19(t *testing.T) {
 			if rapid.IntRange(0, 9).Draw(rt, "seq_max") == 0 {
 				c.Seq = math.MaxUint64
 			}
-		case "set56", "prev56":
+		case "set56", "prev56", "typed56":
 			c.Start = map[int][][2]int64{}
 			for i, n := 0, rapid.IntRange(0, 8).Draw(rt, "nuuids"); i < n; i++ {
 				c.Pool = append(c.Pool, sid(rt))
